@@ -195,6 +195,10 @@ func runWorker(w, workers int, sel []Kind, seed uint64, tier string, scale float
 				verdict, orig = line[:k], line[k+4:]
 			}
 			prio := 2
+			if strings.Contains(verdict, "wf=f") {
+				// outside the property's quantifier the predicate claims nothing: correspondence only
+				verdict = strings.Replace(verdict, "pred=f", "pred=t", 1)
+			}
 			switch {
 			case strings.Contains(verdict, "pred=f") && strings.Contains(verdict, "corr=eq") && !strings.Contains(verdict, "kf=-"):
 				prio = 3
